@@ -62,8 +62,9 @@ class FakeRequests:
     """behaviour: {"cap": max page size the server honours, "empties": positions of empty pages,
     "extra_links": bool, "empty_last": bool}"""
 
-    def __init__(self, docs, cap=1000, empties=(), extra_links=True, empty_last=False, base="/api/v1/", by_site=None):
+    def __init__(self, docs, cap=1000, empties=(), extra_links=True, empty_last=False, base="/api/v1/", by_site=None, meta="accurate"):
         self.docs = docs
+        self.meta = meta  # what the page's _meta block says: accurate | absent | small | zero | large | text (the links decide, not _meta)
         self.by_site = by_site  # optional {site name: documents}: the collection served depends on the site in the URL
         self.cap = cap
         self.empties = sorted(empties)
@@ -126,8 +127,12 @@ class FakeRequests:
             links["next"] = {"href": f"{path}?{qs}&page={page + 1}", "title": "next page"}
             if self.extra_links:
                 links["last"] = {"href": "last-link", "title": "last page"}
-        return Resp({"_items": copy.deepcopy(cur), "_links": links, "_meta": {"page": page, "max_results": size,
-                                                                             "total": len(items)}})
+        payload = {"_items": copy.deepcopy(cur), "_links": links}
+        if self.meta != "absent":
+            total = {"accurate": len(items), "small": min(len(items), max(1, len(pages[0]))), "zero": 0, "large": len(items) + 1000,
+                     "text": str(len(items))}.get(self.meta, len(items))
+            payload["_meta"] = {"page": page, "max_results": size, "total": total}
+        return Resp(payload)
 
     def head(self, url, headers=None, **kw):
         self.log.append({"url": url, "auth": headers, "method": "HEAD"})
